@@ -157,6 +157,8 @@ def run(chk, facts, tier, only=None):
         import c05
         chk.include(c05, "C05.R1", "C04.R3", facts)     # what the checker accepts is what the spec's rules accept
         chk.include(c05, "C05.R3", "C04.R4", facts)     # ... and stale memo entries cannot make it accept more
+        import c08
+        chk.include(c08, "C08.R5", "C04.R5", facts)     # the value decoded at the supertype is a value *of* the supertype: nat read at int goes through deserialize_int
     if not only or only == "C04.R1":
         chk.run_rule("C04.R1", "checker rule table and decoder acceptance table agree in both directions",
                      lambda: rule_tables(chk, facts))
